@@ -477,7 +477,8 @@ def run(ctx):
                 'white space variants; placed as plain <cn>, <cn type="e-notation">m<sep/>e</cn> with shifted mantissa, '
                 'initial_value of constants and of the state variable, and as bare MathML fragments; 15%% of the <cn> texts with a bare '
                 'decimal point or redundant zeros (5. / .5 / 5.e3 / 005.0 / 5.000), 10%% of the documents with the digits supplied '
-                'through internal XML entities.' % n)
+                'through internal XML entities; in half of the documents a near-integer literal written directly as the exponent of a '
+                'power, in 40%% an initial_value on the variable of integration.' % n)
     ctx.trusted += ['tools/translate_precision.py (FLOAT_PRECISION, _cn_handler conversions and format, Quantity.__float__ / '
                     '_eval_evalf, Variable.initial_value, Printer._print_float/_print_Float shapes)',
                     'CPython float(text) correctly rounded and repr(float) round-trips (cross-checked against exact '
